@@ -378,3 +378,23 @@ Example C01_numpy_emit_example :
   = s2l "Load the dataset." ++ [NL; NL] ++ s2l "Parameters" ++ [NL] ++ s2l "----------" ++ [NL] ++ s2l "name : str" ++ [NL] ++ s2l "    dataset to load"
     ++ [NL] ++ s2l "batch_size : int" ++ [NL].
 Proof. exact NumpyEmitProofs.numpy_emit_example. Qed.
+
+(* ---- "defaults forming a suffix of the parameter list for Google / NumPy" (the quantifier's domain) is where the parser leaves
+   defaults alone (Model/ForceDefaults.v: the sticky require_default flag of the Google / NumPy parse phase over interpolate_defaults,
+   compared with the code through parse_docstring each run).  For EVERY parameter list whose announced defaults form a suffix, each
+   parameter keeps exactly its own default (C01_suffix_defaults_are_kept); for ANY list, what comes out is suffix-shaped -- a parameter
+   behind the first default that announces none is GIVEN one, the zero of its simple type or NoneStr (C01_forced_defaults_example:
+   outside the domain the interface changes). *)
+From CDD Require ForceDefaults ForceDefaultsProofs.
+Theorem C01_suffix_defaults_are_kept : forall (D : Type) ps, ForceDefaultsProofs.suffix_shaped D false ps = true ->
+  ForceDefaults.force_future D false ps = map (ForceDefaultsProofs.own D) ps.
+Proof. exact ForceDefaultsProofs.suffix_defaults_are_kept. Qed.
+Print Assumptions C01_suffix_defaults_are_kept.
+Theorem C01_defaults_come_out_as_a_suffix : forall (D : Type) ps b,
+  ForceDefaultsProofs.out_shaped D b (ForceDefaults.force_future D b ps) = true.
+Proof. exact ForceDefaultsProofs.result_is_suffix_shaped. Qed.
+Print Assumptions C01_defaults_come_out_as_a_suffix.
+Example C01_forced_defaults_example :
+  ForceDefaults.force_future N false [(Some (s2l "int"), None); (Some (s2l "str"), Some 7%N); (Some (s2l "int"), None); (Some (s2l "List[str]"), None)]
+  = [None; Some (ForceDefaults.FOwn N 7%N); Some (ForceDefaults.FZero N (s2l "int")); Some (ForceDefaults.FNoneStr N)].
+Proof. exact ForceDefaultsProofs.force_example. Qed.
